@@ -14,37 +14,19 @@ theorem validateOpen_eq (cfg : Cfg) (n : Negotiated) (t : OpenMsg) :
     validateOpen cfg n t =
       if cfg.peerAs ≠ 0 ∧ n.peerAs ≠ cfg.peerAs then some ⟨2, 2⟩
       else if t.bgpId = 0 then some ⟨2, 3⟩
-      else if t.myAs = cfg.localAs ∧ t.bgpId = cfg.routerId then some ⟨2, 3⟩
+      else if n.peerAs = cfg.localAs ∧ t.bgpId = cfg.routerId then some ⟨2, 3⟩
       else if t.hold ≠ 0 ∧ t.hold < 3 then some ⟨2, 6⟩
       else msVerdict n := by
   unfold validateOpen msVerdict holdMin
   rfl
 
-/-- Under RFC 6793-consistent AS fields and a 2-octet local AS that is not AS_TRANS, "the peer is
-    internal" read on the 2-octet field (the code) and on the true AS number (RFC) coincide. -/
-theorem internal_iff (cfg : Cfg) (t : OpenMsg) (hc : consistentAs t) (h2 : cfg.localAs ≤ 65535)
-    (ht : cfg.localAs ≠ asTrans) :
-    t.myAs = cfg.localAs ↔ (rfcNegotiate (ourOpen cfg) t).peerAs = cfg.localAs := by
-  simp only [rfcNegotiate]
-  cases h4 : asn4Of t.caps with
-  | none => simp
-  | some a =>
-    have := hc a h4
-    simp only [trans] at this
-    by_cases ha : a > 65535
-    · simp only [ha, if_true] at this
-      cases asn4Of (ourOpen cfg).caps <;> simp [this] <;> omega
-    · simp only [ha, if_false] at this
-      cases asn4Of (ourOpen cfg).caps <;> simp [this]
-
-theorem validate_eq_rfc (cfg : Cfg) (t : OpenMsg) (hc : consistentAs t) (h2 : cfg.localAs ≤ 65535)
-    (ht : cfg.localAs ≠ asTrans) :
+theorem validate_eq_rfc (cfg : Cfg) (t : OpenMsg) (hc : consistentAs t) :
     validateOpen cfg (negotiate (ourOpen cfg) t) t =
       match (rfcRefusals cfg.localAs cfg.peerAs cfg.routerId (ourOpen cfg) t).head? with
       | some e => some e
       | none => msVerdict (negotiate (ourOpen cfg) t) := by
   rw [validateOpen_eq, peerAs_eq_rfc _ _ hc]
-  simp only [internal_iff cfg t hc h2 ht, rfcRefusals]
+  simp only [rfcRefusals]
   by_cases c1 : cfg.peerAs ≠ 0 ∧ (rfcNegotiate (ourOpen cfg) t).peerAs ≠ cfg.peerAs
   · simp only [if_pos c1]; simp
   · by_cases c2 : t.bgpId = 0
